@@ -9,7 +9,7 @@ PID = 'C05'
 STATS = G.STATS
 PARTIAL = [
     "the model of helpers.knot_refinement is specification-level (the knots X inserted one at a time with the proved A5.1 model); that A5.4 as coded returns the same control points is checked by the exact correspondence, not proved",
-    "refine_preserves: the composition of the per-insertion preservation theorem (C04) over the whole list X is not yet stated as one Lean theorem",
+    "refine_preserves_curve is proved for curves under the per-knot admissibility predicate RefineOk; discharging RefineOk for the generated list X (from sortedness and tolerance separation) and the lifting to surfaces / volumes are not proved",
 ]
 
 
